@@ -50,6 +50,7 @@ def _clamp_shape(repo, fn_module, expr, lo, hi, fn=None, depth=0):
 
 
 def check(ctx):
+    limited_shares_written_by_action_only(ctx)
     ctx.rule("T9-bounded", "last store to output.value / es.value is min(hi, max(lo, x)) with the limit first")
     ctx.rule("T9-error", "e = navigating.wrap2(input - rsp, parm.wrap)")
     ctx.rule("T1-reset", "integrator reset dominated by abs(rsp - prsp) > parm.drsp")
@@ -118,3 +119,30 @@ def check(ctx):
                   "the store `%s` is followed by a use of the copy read before it: the reset of the integrator (or of the previous set "
                   "point) has no effect on this evaluation" % (src(bad[1].ast) if bad else ""))
     defect_scope(ctx, "D-scope", [f], max_depth=1, floor=1, label="scope: ControllerPid.action")
+
+
+def limited_shares_written_by_action_only(ctx):
+    """the limits are enforced where action() stores: any other method of the controller that writes the output share (or gives the
+    error sum anything but its reset value) publishes an unlimited value"""
+    ctx.rule("T4-limited", "ControllerPid: .output.value is stored only by action(); .es.value elsewhere only as the constant 0.0 reset")
+    C = ctx.cls("controlling", "ControllerPid")
+    k = 0
+    for mn, f in sorted(C.methods.items()):
+        if mn == "action" or not any(b is f for b in C.node.body):
+            continue
+        ctx.use(f)
+        for x in ast.walk(f):
+            if isinstance(x, (ast.Assign, ast.AugAssign)):
+                for t in (x.targets if isinstance(x, ast.Assign) else [x.target]):
+                    d = src(t)
+                    if d in ("self.output.value", "self.es.value") or d.startswith(("self.output[", "self.es[")):
+                        k += 1
+                        okw = d.startswith("self.es") and isinstance(x, ast.Assign) and isinstance(x.value, ast.Constant) and x.value.value == 0.0
+                        ctx.check(okw, "T4-limited", x, "ControllerPid.%s: %s" % (mn, src(x)[:60]),
+                                  "a value written here does not pass the ovmin/ovmax (esmin/esmax) clamp of action(): it stays outside the "
+                                  "configured limits until the next update with a positive lapse")
+            elif isinstance(x, ast.Call) and isinstance(x.func, ast.Attribute) and x.func.attr in ("update", "change") and \
+                    src(x.func.value) in ("self.output", "self.es"):
+                k += 1
+                ctx.bad("T4-limited", x, "ControllerPid.%s: %s" % (mn, src(x)[:60]), "an unlimited value is published outside action()")
+    ctx.floor("T4-limited:writes", k, 1)
